@@ -35,12 +35,13 @@ func c12Check() *libCheck {
 
 func c14Check() *libCheck {
 	return &libCheck{
-		Prop: "C14", Kind: "c14", Level: "exploration",
+		Prop: "C14", Kind: "c14", Level: "exploration", Extra: c14GCPhase,
 		QuickRuns: 60000, ThoroughRuns: 5000000, PerBatch: 3750,
-		Rule: "each run = one seeded world: 1..4 masks built by the library from generated valid paths over a descriptor obtained from RegisterAST (white and black list), checked for stable JSON text under permuted map iteration, JSON round trip on a probe set, then 1..6 simulated callers interleaving Marshal / Unmarshal / MarshalJSON / UnmarshalJSON / Unmarshal-through-a-reused-buffer on shared masks under the scheduler (yields at every sync.Map and sync.Pool operation, emulated pool), then corrupted documents and path strings; non-trivial = a mask was built and (>=2 scheduling decisions or >=1 corrupted input); distinct by (schedule fingerprint, workload)",
+		Rule: "each run = one seeded world: 1..4 masks built by the library from generated valid paths over a descriptor obtained from RegisterAST (white and black list), checked for stable JSON text under permuted map iteration, JSON round trip on a probe set, then 1..6 simulated callers interleaving Marshal / Unmarshal / MarshalJSON / UnmarshalJSON / Unmarshal-through-a-reused-buffer on shared masks under the scheduler (yields at every sync.Map and sync.Pool operation, emulated pool), then corrupted documents and path strings; two descriptor universes; a separate phase of short-lived masks with garbage collections between requests; non-trivial = a mask was built and (>=2 scheduling decisions or >=1 corrupted input); distinct by (schedule fingerprint, workload)",
 		Assumptions: []string{
-			"PARTIAL: only the JSON transport and cache facet; that queries answer exactly as the set of paths prescribes (path-set semantics, independence of path order) is a pure function of the path list and is not decided here",
-			"the round-trip oracle compares the answers of the original and the round-tripped mask on a probe set derived from the schema (field ids incl. >63 and absent ones, list indices, int and string keys, All/Exist/IsBlack/Type, ForEachChild), not against an independent path semantics",
+			"PARTIAL: the JSON transport and cache facet, plus path membership of star-free masks against a small independent path-set model and 'valid star-free paths must build'; the answers of Field/Int/Str against a model, masks with '*' and independence of path order are a pure function of the path list and are not decided here",
+			"the round-trip oracle compares the answers of the original and the round-tripped mask on a probe set derived from the schema (field ids incl. 63, >63 and absent ones, list indices, int keys incl. >2^53, string keys incl. escapes and control characters, All/Exist/IsBlack/Type)",
+			"the memory-reclamation phase uses the real collector and allocator: it is seeded but not replayable to the event, only to the class",
 			"a clean batch is evidence, not proof",
 		},
 		RealStub: map[string]interface{}{
